@@ -13,6 +13,7 @@ import NucsProofs.Examples.Donald
 import NucsProofs.Examples.Tsp
 import NucsProofs.Examples.Golomb
 import NucsProofs.Examples.GolombSym
+import NucsProofs.Examples.GolombConsSound
 import NucsProofs.Examples.Quasigroup
 import NucsProofs.Examples.Sports
 import NucsProofs.Examples.Counts
@@ -47,6 +48,10 @@ import NucsProofs.Examples.Counts
   and for the magic-square model for every order (`C20_magicSquare_sb_iff`: the flag adds exactly four corner orderings;
   `C20_magicSquare_sb_preserves`, `C20_magicSquare_sb_sat_iff`: transpose and vertical flip of a normal magic square are normal
   magic squares, the corners hold distinct numbers, one of the eight images satisfies the orderings; MagicSquareSym.lean).
+  THE GOLOMB MODEL'S OWN CONSISTENCY ALGORITHM (`golomb_consistency_algorithm`) is modelled (NucsModel/Engine/GolombCons.lean:
+  `golombPrune`, `golombPass`; tied to the code by harness/golomb_corr.py) and its pruning is proved SOUND for every number of
+  marks, state and decision list: `C20_golomb_prune_sound` (a solution inside the box stays inside; no spurious failure).  The
+  proof is the argument the pinned code violated twice (D15: bounds lowered; D17: lower bounds of open variables counted as used).
   Not proved: the larger literature counts, preservation of satisfiability and optimum by symmetry
   breaking for the remaining flagged models — Schur, BIBD, quasigroup, sports scheduling (tested).  Noted by the count proofs: for ODD n the shipped symmetry-breaking Schur model
   posts lexicographic_leq on 3n variables (an odd number), outside that constraint's documented shape; the
